@@ -219,6 +219,8 @@ def _solve(i):
         s, r = _check(ob.hyps, extra, min(timeout_s, 3))
         res = "VACUOUS" if r == z3.unsat else ("PROVED" if r == z3.sat else "COVER-UNKNOWN")
         return i, res, solver, time.time() - t0, model, ("" if r != z3.unknown else s.reason_unknown())
+    if any(z3.eq(ob.goal, h) for h in ob.hyps):
+        return i, "PROVED", "syntactic (goal is a hypothesis)", time.time() - t0, model, reason
     neg = z3.Not(ob.goal)
     short = min(timeout_s, 4)
     s, r = _check(ob.hyps, [neg], short)
